@@ -413,6 +413,64 @@ class Gen:
                 if k % 4 == 0:
                     d['legacy'] = True
                 self.add(d, 'F4c', 'accept', ['default-boundary', form, 'W=%d' % W])
+        # names that coincide with names the macro uses internally (hygiene): default constants, field names
+        for k, cname in enumerate(['MASK', 'CLEAR_MASK', 'ZERO', 'RAW', 'DEFAULT', 'DEFAULT_RAW_VALUE', 'VALUE', 'ONE', 'BITS', 'MAX']):
+            W = [24, 8, 100, 32, 7, 65, 16, 48, 128, 12][k]
+            v = rng.getrandbits(W) & ~1
+            d = {'kind': 'bitfield', 'name': self.name('S'), 'base': W, 'module': True,
+                 'default': {'form': 'const', 'name': cname, 'value': v},
+                 'fields': [F('lo', {'k': 'bool'}, [('s', 0)]), F('rest', u(W - 1), [('r', 1, W - 1)] if W > 2 else [('s', 1)], acc='r')]}
+            if cname in ('DEFAULT', 'DEFAULT_RAW_VALUE', 'ZERO'):
+                # these are associated constants of the generated type: the user's module-level constant is a different item
+                pass
+            self.add(d, 'F8', 'accept', ['hygiene', 'const-named-' + cname])
+        names = ['f', 'value', 'index', 'field_value', 'temp', 'mask', 'result', 'effective_index', 'extracted_bits', 'i', 's', 'v', 'x', 'raw',
+                 'r#type', 'r#match', 'bits', 'one']
+        fields = [F(nm, {'k': 'bool'} if k % 3 == 0 else u(2), [('s', 3 * k)] if k % 3 == 0 else [('r', 3 * k, 3 * k + 1)],
+                    acc=['rw', 'r', 'rw'][k % 3]) for k, nm in enumerate(names)]
+        self.add({'kind': 'bitfield', 'name': self.name('S'), 'base': 64, 'debug': True, 'fields': fields}, 'F8', 'accept',
+                 ['hygiene', 'field-names'])
+        arr = [F(nm, u(2), [('r', 8 * k, 8 * k + 1)], count=2, stride=4) for k, nm in enumerate(['f', 'value', 'index', 'temp', 'result', 'mask'])]
+        self.add({'kind': 'bitfield', 'name': self.name('S'), 'base': 64, 'default': {'form': 'lit', 'value': 5}, 'fields': arr}, 'F8', 'accept',
+                 ['hygiene', 'array-field-names'])
+        # documentation written after the bit attribute
+        dd = {'kind': 'bitfield', 'name': self.name('S'), 'base': 16, 'doc': True,
+              'fields': [dict(F('a', u(8), [('r', 0, 7)]), doc=True, doc_after=True),
+                         dict(F('b', {'k': 'bool'}, [('s', 8)], count=4), doc=True, doc_after=True),
+                         dict(F('c', u(4), [('s', 12), ('r', 13, 15)], lst=True), doc=True)]}
+        self.add(dd, 'F8', 'accept', ['doc-after-attribute'])
+        # wide fields under debug; custom-typed fields at native widths; u128 halves swapped; byte arrays over lists
+        self.add({'kind': 'bitfield', 'name': self.name('S'), 'base': 128, 'debug': True,
+                  'fields': [F('wide', u(100), [('r', 0, 99)]), F('w65', u(65), [('r', 63, 127)], acc='r'), F('w127', u(127), [('r', 1, 127)], acc='r'),
+                             F('s64', {'k': 'i', 'n': 64}, [('r', 64, 127)], acc='r')]}, 'F8', 'accept', ['debug-wide-fields'])
+        for n in (8, 16, 32, 64):
+            for W in sorted({n, 128 if n == 64 else 2 * n}):
+                lo = W - n
+                e = [('r', lo, W - 1)]
+                self.add({'kind': 'bitfield', 'name': self.name('S'), 'base': W,
+                          'fields': [F('en', self.custom_enum(n), e), F('nested', self.custom_nested(n), e, acc='rw'),
+                                     F('plain', u(n), e, acc='r')]}, 'F8', 'accept', ['custom-native-width', 'n=%d' % n, 'W=%d' % W])
+        self.add({'kind': 'bitfield', 'name': self.name('S'), 'base': 128,
+                  'fields': [F('swapped', u(128), [('r', 64, 127), ('r', 0, 63)], lst=True)]}, 'F8', 'accept', ['u128-halves-swapped'])
+        self.add({'kind': 'bitfield', 'name': self.name('S'), 'base': 100,
+                  'fields': [F('split', u(72), [('r', 0, 7), ('r', 36, 99)], lst=True), F('mid', u(28), [('r', 8, 35)])]}, 'F8', 'accept',
+                 ['segment-64-bits-wide'])
+        two(16, [F('a', u(8), [('r', 0, 3), ('r', 8, 11)], count=2, stride=4, lst=True)], 'u8-array-over-list-covering-all-bits')
+        two(32, [F('a', u(8), [('r', 0, 3), ('r', 16, 19)], count=4, stride=4, lst=True)], 'u8-array-over-list-covering-all-bits-32')
+        two(8, [F('cmd', u(4), [('r', 0, 3)], acc='w'), F('status', u(4), [('r', 0, 3)], acc='r'), F('hi', u(4), [('r', 4, 7)])],
+            'read-only-overlaps-earlier-writable')
+        two(8, [F('cmd', u(4), [('r', 0, 3)], acc='w'), F('alias', u(2), [('r', 1, 2)], acc=''), F('hi', u(4), [('r', 4, 7)])],
+            'no-access-overlaps-earlier-writable')
+        # defaults that are not values of the base type (must be rejected)
+        for W in (7, 24, 100, 8, 32):
+            for v in ((1 << W), (1 << W) + 5):
+                for form in ('lit', 'const'):
+                    if W in (8, 32) and form == 'const':
+                        # a named constant of type uW cannot hold the value at all
+                        continue
+                    d = {'kind': 'bitfield', 'name': self.name('S'), 'base': W, 'fields': [F('lo', {'k': 'bool'}, [('s', 0)])]}
+                    d['default'] = {'form': form, 'value': v} if form == 'lit' else {'form': 'const', 'name': 'DEF_%s' % d['name'], 'value': v}
+                    self.add(d, 'F4c', 'reject', ['default-out-of-range', form, 'W=%d' % W])
         # debug on things that must not compile with it (C19)
         self.add({'kind': 'bitfield', 'name': self.name('S'), 'base': 8, 'debug': True,
                   'fields': [F('a', u(4), [('r', 0, 3)], acc='w'), F('b', u(4), [('r', 4, 7)])]}, 'F4d', 'reject', ['debug-write-only'])
@@ -458,7 +516,11 @@ class Gen:
                 ('2^n-all-live', [{'name': 'V%d' % i, 'discr': x, 'cfg': ('all' if i == 0 else None)} for i, x in enumerate(full)]),
                 ('2^n-first-stripped', [{'name': 'V%d' % i, 'discr': x, 'cfg': ('any' if i == 0 else None)} for i, x in enumerate(full)]),
                 ('2^n-1', [{'name': 'V%d' % i, 'discr': x, 'cfg': ('all' if i == 0 else None)} for i, x in enumerate(full[:-1])]),
-                ('2^n+1', [{'name': 'V%d' % i, 'discr': x} for i, x in enumerate(full)] + [{'name': 'Alt', 'discr': 0, 'cfg': 'any'}])]:
+                ('2^n+1', [{'name': 'V%d' % i, 'discr': x} for i, x in enumerate(full)] + [{'name': 'Alt', 'discr': 0, 'cfg': 'any'}]),
+                ('alternatives-first-stripped', [{'name': 'Off', 'discr': 1, 'cfg': 'any'}, {'name': 'On', 'discr': 1, 'cfg': 'all'},
+                                                 {'name': 'Zero', 'discr': 0}]),
+                ('alternatives-first-live', [{'name': 'On', 'discr': 1, 'cfg': 'all'}, {'name': 'Off', 'discr': 1, 'cfg': 'any'},
+                                             {'name': 'Zero', 'discr': 0}])]:
                 if vs:
                     self.add({'kind': 'enum', 'name': self.name('E'), 'bits': n, 'exh': 'conditional', 'variants': vs}, 'F6', 'accept', ['conditional', tag])
         # literal spellings
